@@ -893,15 +893,21 @@ def for_filter_to_index_loop(ctx, fw, unit, loopnode, seq, ivar, cvar=None):
     loopnode["_ridx"] = {"ivar": ivar, "seq": seq, "zip": None}
 
 
-def inline_closure(fw, fnnode, name, param_decl):
+def inline_closure(fw, fnnode, name, param_decl, result_type=None):
     """W8: a `let`-bound, non-escaping, non-recursive closure that captures `&mut` locals is inlined at its direct
     call sites: `let mut NAME = |p: T| BLOCK;` is removed and every statement `NAME(ARG);` becomes
-    `{ let p: T = ARG; BLOCK }` (beta-reduction; BLOCK is copied verbatim, with the edits woven inside it)."""
+    `{ let p: T = ARG; BLOCK }` (beta-reduction; BLOCK is copied verbatim, with the edits woven inside it).
+    With `result_type` R (the closure is `|p: T| -> R BLOCK` and every call is the statement `NAME(ARG)?;`) the call becomes
+    `{ let p: T = ARG; let r__: R = BLOCK; r__?; }`: a `return Err(..)` / `bail!` inside BLOCK leaves the enclosing function
+    with the error the `?` would have propagated, the value of BLOCK goes through the same `?`."""
     let = fw.let(fnnode, name)
     cls = [c for c in fw.children.get(let["id"], []) if c["kind"] == "closure" and c["span"] == let["init_span"]]
     if len(cls) != 1 or not cls[0]["body_is_block"]:
         raise WeaveError("%s: W8: `let %s` is not bound to a block-bodied closure" % (fw.rel, name))
     c = cls[0]
+    has_out = c.get("output_span") is not None
+    if has_out != (result_type is not None) or (has_out and " ".join(fw.text(c["output_span"]).split()) != result_type):
+        raise WeaveError("%s: W8: closure `%s` does not have the expected result type %s" % (fw.rel, name, result_type))
     calls = [k for k in fw.in_fn(fnnode, ("call",)) if k["func"] == name]
     if not calls:
         raise WeaveError("%s: W8: closure `%s` is never called" % (fw.rel, name))
@@ -913,9 +919,15 @@ def inline_closure(fw, fnnode, name, param_decl):
         stmt = fw.stmt_of(k)
         if stmt["kind"] != "stmt_expr" or len(k["args"]) != 1:
             raise WeaveError("%s: W8: call of `%s` is not a statement with one argument" % (fw.rel, name))
+        want = fw.text(k["span"]).strip() + ("?;" if result_type else ";")
+        if "".join(fw.text(stmt["span"]).split()) != "".join(want.split()):
+            raise WeaveError("%s: W8: call of `%s` is not the statement `%s`" % (fw.rel, name, want))
         arg = fw.text(k["args"][0]["span"])
         fw.replace(stmt["span"][0], stmt["span"][1], "", "W8-inline-closure", what="call of closure " + name)
-        fw.copy(c["body_span"][0], c["body_span"][1], stmt["span"][0], pre="{ let %s = %s;\n" % (param_decl, arg), suf="\n}", rule="W8-inline-closure")
+        if result_type:
+            fw.copy(c["body_span"][0], c["body_span"][1], stmt["span"][0], pre="{ let %s = %s;\n let r__: %s = " % (param_decl, arg, result_type), suf=";\n r__?;\n}", rule="W8-inline-closure")
+        else:
+            fw.copy(c["body_span"][0], c["body_span"][1], stmt["span"][0], pre="{ let %s = %s;\n" % (param_decl, arg), suf="\n}", rule="W8-inline-closure")
     return c
 
 
